@@ -759,8 +759,131 @@ def _generated_class(jx: Any, template: str, cls: str) -> ast.ClassDef | None:
     return None
 
 
+def _location_set(ix: Any, m: Any, e: ast.AST | None, depth: int = 8) -> set[str] | None:
+    """the members of ParameterLocation a constant expression of module m denotes: a display ({A.X, A.Y} / [..] / (..)), set(..) /
+    frozenset(..) of one, unions / differences / intersections of such sets (operators and methods), a conditional-free name of a
+    module-level constant (followed through imports) or of a class variable; None when the expression is anything else"""
+    if e is None or depth <= 0:
+        return None
+    if isinstance(e, (ast.Set, ast.List, ast.Tuple)):
+        out: set[str] = set()
+        for x in e.elts:
+            if isinstance(x, ast.Starred):
+                s = _location_set(ix, m, x.value, depth - 1)
+                if s is None:
+                    return None
+                out |= s
+            elif isinstance(x, ast.Attribute) and norm(x.value).rsplit(".", 1)[-1] == "ParameterLocation":
+                out.add(x.attr)
+            else:
+                return None
+        return out
+    if isinstance(e, ast.BinOp) and isinstance(e.op, (ast.BitOr, ast.Sub, ast.BitAnd, ast.BitXor)):
+        a, b = _location_set(ix, m, e.left, depth - 1), _location_set(ix, m, e.right, depth - 1)
+        if a is None or b is None:
+            return None
+        return a | b if isinstance(e.op, ast.BitOr) else a - b if isinstance(e.op, ast.Sub) else a & b if isinstance(e.op, ast.BitAnd) else a ^ b
+    if isinstance(e, ast.Call) and not e.keywords:
+        if isinstance(e.func, ast.Name) and e.func.id in ("set", "frozenset", "tuple", "list") and len(e.args) <= 1:
+            return set() if not e.args else _location_set(ix, m, e.args[0], depth - 1)
+        if isinstance(e.func, ast.Attribute) and e.func.attr in ("union", "difference", "intersection", "symmetric_difference", "copy"):
+            acc = _location_set(ix, m, e.func.value, depth - 1)
+            for x in e.args:
+                s = _location_set(ix, m, x, depth - 1)
+                if acc is None or s is None:
+                    return None
+                acc = {"union": acc | s, "difference": acc - s, "intersection": acc & s, "symmetric_difference": acc ^ s}.get(e.func.attr, acc)
+            return acc
+        return None
+    if isinstance(e, (ast.Name, ast.Attribute)):
+        r = ix.resolve(m, norm(e))
+        if r and r[0] == "var":
+            mod, n = r[1]
+            return _location_set(ix, mod, mod.variables[n], depth - 1)
+        if r and r[0] == "classvar":
+            k, n = r[1]
+            cv = ix.find_classvar(k, n)
+            return _location_set(ix, cv[0].module, cv[1], depth - 1) if cv else None
+    return None
+
+
+CLIENT_GETTERS = ("get_httpx_client", "get_async_httpx_client")
+MUTATORS = ("update", "set", "setdefault", "pop", "popitem", "clear", "add", "append", "extend", "insert", "remove", "discard", "delete",
+            "set_cookie", "extract_cookies", "clear_expired_cookies", "__setitem__", "__delitem__", "__setattr__", "__delattr__",
+            "set_httpx_client", "set_async_httpx_client", "close", "aclose")
+
+
+def _client_state_changes(stmts: list[ast.stmt], param: str = "client") -> tuple[list[ast.AST], int]:
+    """(the places where generated statements change the state of the client they are given, the number of sends through it).
+    What belongs to the client: the parameter `client`, the httpx client its getters return, their attributes and items, and the locals
+    bound to any of these (flow-insensitive: a local counts when some statement binds it so).  What a call returns is new - except
+    what the getters return, which the client keeps and hands out again on the next call."""
+    owned: set[str] = {param}
+
+    def rooted(e: ast.AST) -> bool:
+        if isinstance(e, ast.Await):
+            return rooted(e.value)
+        if isinstance(e, ast.NamedExpr):
+            return rooted(e.value)
+        if isinstance(e, ast.Name):
+            return e.id in owned
+        if isinstance(e, (ast.Attribute, ast.Subscript, ast.Starred)):
+            return rooted(e.value)
+        if isinstance(e, ast.IfExp):
+            return rooted(e.body) or rooted(e.orelse)
+        if isinstance(e, ast.BoolOp):
+            return any(rooted(v) for v in e.values)
+        if isinstance(e, ast.Call) and isinstance(e.func, ast.Attribute) and e.func.attr in CLIENT_GETTERS + ("__enter__", "__aenter__"):
+            return rooted(e.func.value)
+        return False
+
+    def bind(t: ast.AST, v: ast.AST) -> bool:
+        if isinstance(t, ast.Name) and t.id not in owned and rooted(v):
+            owned.add(t.id)
+            return True
+        if isinstance(t, (ast.Tuple, ast.List)) and isinstance(v, (ast.Tuple, ast.List)) and len(t.elts) == len(v.elts):
+            return any([bind(a, b) for a, b in zip(t.elts, v.elts)])
+        return False
+
+    nodes_ = [n for st in stmts for n in ast.walk(st)]
+    changed = True
+    while changed:
+        changed = False
+        for n in nodes_:
+            if isinstance(n, ast.Assign):
+                changed |= any([bind(t, n.value) for t in n.targets])
+            elif isinstance(n, (ast.AnnAssign, ast.NamedExpr)) and n.value is not None:
+                changed |= bind(n.target, n.value)
+            elif isinstance(n, (ast.With, ast.AsyncWith)):
+                changed |= any([bind(i.optional_vars, i.context_expr) for i in n.items if i.optional_vars is not None])
+    bad: list[ast.AST] = []
+    sends = 0
+    for n in nodes_:
+        targets: list[ast.AST] = []
+        if isinstance(n, ast.Assign):
+            targets = list(n.targets)
+        elif isinstance(n, (ast.AugAssign, ast.AnnAssign)):
+            targets = [n.target]
+        elif isinstance(n, ast.Delete):
+            targets = list(n.targets)
+        for t in [x for t in targets for x in (t.elts if isinstance(t, (ast.Tuple, ast.List)) else [t])]:
+            if isinstance(t, (ast.Attribute, ast.Subscript)) and rooted(t.value):
+                bad.append(n)
+        if isinstance(n, ast.Call):
+            if isinstance(n.func, ast.Attribute) and rooted(n.func.value):
+                if n.func.attr in MUTATORS:
+                    bad.append(n)
+                elif n.func.attr not in CLIENT_GETTERS and isinstance(n.func.value, (ast.Call, ast.Name)) and rooted(n.func.value) \
+                        and (isinstance(n.func.value, ast.Call) or n.func.value.id != param):
+                    sends += 1      # a method of the httpx client itself (request / send / stream ...)
+            elif call_name(n) in ("setattr", "delattr", "object.__setattr__", "object.__delattr__") and n.args and rooted(n.args[0]):
+                bad.append(n)
+    return bad, sends
+
+
+
 WRAPPERS = ("list", "tuple", "iter", "reversed", "sorted", "set", "frozenset")
-LOOKUPS = ("get", "setdefault", "pop", "index", "count", "__contains__", "__getitem__")
+LOOKUPS =("get", "setdefault", "pop", "index", "count", "__contains__", "__getitem__")
 
 
 def _parameter_identity(rep: Report, ix: Any) -> None:
@@ -1084,6 +1207,11 @@ def run(rep: Report, ctx: Any) -> str:
                       "whatever the value (str(...), an f-string, a str literal per arm, ...); on every path through header_params on which "
                       "the kind's template defines transform_header the value stored is what transform_header writes for the python name")
     rep.rule("R03.6", "sync_detailed/asyncio_detailed and sync/asyncio are equal as token streams modulo async/await and the client getter")
+    rep.rule("R03.12", "a request does not depend on earlier calls: no statement an endpoint module can contain changes the state of the client "
+                       "it is given - nothing reached from the parameter `client` or from the httpx client its getters return "
+                       "(get_httpx_client / get_async_httpx_client), directly or through locals bound to such objects, is assigned to, "
+                       "deleted from or called with a mutating method (cookies / headers / params moved into the shared httpx client stay "
+                       "there for every later call); the httpx client is only used to send")
     rep.rule("R03.7", "requires_security is true exactly when the operation's security is not empty; on every path through `arguments` taken "
                       "for a secured operation the annotation of `client` is AuthenticatedClient; in the AuthenticatedClient class as "
                       "the template writes it, every construction of httpx.Client / httpx.AsyncClient is dominated by a store that overwrites "
@@ -1252,7 +1380,23 @@ def run(rep: Report, ctx: Any) -> str:
     # ---- R03.2 ---------------------------------------------------------------------------------------------------------
     defs = {"headers": ("header_params", "headers: dict[str, Any] = {}"), "cookies": ("cookie_params", "cookies = {}"),
             "params": ("query_params", "params: dict[str, Any] = {}")}
-    top = list(tplq.frags(et.tree.body))
+    own_macros = {m.name: m for m in et.tree.find_all(nodes.Macro)}
+
+    def _with_own_macros(frs: list[Any], depth: int = 2) -> Iterator[Any]:
+        """the fragments, and for every call of a macro of the module itself what that macro writes there: under the guards and in
+        the loops of the call site as well as its own (the tests a macro makes of its parameters are atoms like any other)"""
+        for f in frs:
+            yield f
+            if f.kind != "expr" or not depth:
+                continue
+            for c in [f.node, *f.node.find_all(nodes.Call)]:
+                m = own_macros.get(c.node.name) if isinstance(c, nodes.Call) and isinstance(c.node, nodes.Name) else None
+                if m is not None:
+                    inner = [tplq.Frag(k.kind, k.text, f.line, f.guards + k.guards, f.guard_nodes + k.guard_nodes, f.loops + k.loops, k.node)
+                             for k in tplq.frags(m.body)]
+                    yield from _with_own_macros(inner, depth - 1)
+
+    top = list(_with_own_macros(list(tplq.frags(et.tree.body))))
     gk_start = next((f.line for f in top if f.kind == "data" and "def _get_kwargs(" in f.text), None)
     gk_end = next((f.line for f in top if f.kind == "data" and "def _parse_response(" in f.text), None)
     rep.require(gk_start is not None and gk_end is not None, "_get_kwargs region")
@@ -1351,54 +1495,91 @@ def run(rep: Report, ctx: Any) -> str:
                      if isinstance(n, ast.Attribute) and isinstance(n.value, ast.Name) and n.value.id == bt.name}
     rep.check(assigned == {f"BodyType.{k}" for k in members}, "R03.3", "body_from_data::assigns-every-member",
               f"media type branches assign {sorted(assigned)}", where(bfd, bfd.node), lhs=sorted(assigned), rhs=sorted(f"BodyType.{k}" for k in members))
-    # the places where the module serialises a body: the calls of body_to_kwarg(<body>, ...); <body> is whatever is serialised there (the
-    # variable of a loop over endpoint.bodies, endpoint.bodies[0], a local bound to either - the canonical text without its grouping)
-    mfr = list(tplq.frags(et.tree.body))
-    ser = [(f, _flat(expr_text(c.args[0]))) for f in mfr if f.kind == "expr" for c in [f.node, *f.node.find_all(nodes.Call)]
-           if isinstance(c, nodes.Call) and expr_text(c.node) == btk.name and c.args]
+    # the places where the module serialises a body: the calls of body_to_kwarg(<body>, ...) that a path through the module writes - in the
+    # module's own text or in a macro of the module it calls, with what the call site passes; <body> is whatever is serialised there (the
+    # variable of a loop over endpoint.bodies, endpoint.bodies[0], a local bound to either, a macro parameter filled with either - the
+    # canonical text without its grouping).  What belongs to one serialisation is what the same path writes about the same body.
+    local_macros = {m.name: m for m in et.tree.find_all(nodes.Macro)}
 
-    def _about(f: Any, b: str, attr: str) -> list[Any]:
-        """the emissions of <body>.<attr> that belong to the serialisation f of the body b (same loops)"""
-        return [k for k in mfr if k.kind == "expr" and _flat(k.text) == f"{b}.{attr}" and k.loops == f.loops]
+    def _concerns_bodies(n: nodes.Node, seen: frozenset = frozenset()) -> bool:
+        """the node can write (or bind) something the clauses below read: a serialisation, an attribute of a body, a local"""
+        for x in [n, *n.find_all((nodes.Call, nodes.Getattr, nodes.Assign, nodes.AssignBlock))]:
+            if isinstance(x, (nodes.Assign, nodes.AssignBlock)):
+                return True
+            if isinstance(x, nodes.Getattr) and x.attr in ("content_type", "body_type", "bodies"):
+                return True
+            if isinstance(x, nodes.Call) and isinstance(x.node, nodes.Name):
+                if x.node.name == btk.name:
+                    return True
+                m = local_macros.get(x.node.name)
+                if m is not None and m.name not in seen and any(_concerns_bodies(k, seen | {m.name}) for k in m.body):
+                    return True
+        return False
+
+    class _Top:
+        name = "<module>"
+        body = [n for n in et.tree.body if isinstance(n, (nodes.Assign, nodes.AssignBlock)) or _concerns_bodies(n)]
+
+    def _holes(ps: list[_Piece]) -> Iterator[_Piece]:
+        for p in ps:
+            if p.kind == "h":
+                yield p
+                for a in p.args:
+                    yield from _holes(a)
+
+    def _bodies_counts(env: dict) -> set[int]:
+        """how many bodies the endpoint can have (0, 1, 2 = several) given what the tests of the path say about endpoint.bodies"""
+        ops = {"gt": lambda x, k: x > k, "ge": lambda x, k: x >= k, "eq": lambda x, k: x == k, "ne": lambda x, k: x != k,
+               "lt": lambda x, k: x < k, "le": lambda x, k: x <= k}
+        ok = {0, 1, 2}
+        for a, val in env.items():
+            lk = _len_key(a)
+            if lk and lk[0] == "endpoint.bodies":
+                ok = {n for n in ok if ops[lk[1]](n, lk[2]) == val}
+            elif _coll_key(a) == "endpoint.bodies":
+                ok = {n for n in ok if (n > 0) == val}
+        return ok
 
     def _multipart(env: dict, b: str) -> bool | None:
-        """what the guards say about <body>.content_type being multipart/form-data under env (None: nothing)"""
+        """what the tests of the path say about <body>.content_type being multipart/form-data (None: nothing)"""
         for atom, val in env.items():
             m = re.fullmatch(rf"(?:{re.escape(b)}\.content_type (ne|eq) 'multipart/form-data'|'multipart/form-data' (ne|eq) {re.escape(b)}\.content_type)", _flat(atom))
             if m:
                 return val == ((m.group(1) or m.group(2)) == "eq")
         return None
 
-    def _only_body(ln: dict) -> bool:
-        """the endpoint may have exactly one body (its number of bodies is 1 or not constrained by the guards)"""
-        return ln.get("endpoint.bodies", 1) == 1
-
+    ser: list[str] = []
+    no_key, no_ct, explicit = [], [], []
+    n_ct = 0
+    for env, ps in _paths(et, _Top, limit=4096):
+        counts = _bodies_counts(env)
+        if not counts:
+            continue        # tests that contradict each other: nobody takes this path
+        holes = list(_holes(ps))
+        written = {_flat(h.text) for h in holes}
+        here = sorted({_flat(h.args[0][0].text) for h in holes if isinstance(h.node, nodes.Call) and expr_text(h.node.node) == btk.name
+                       and h.args and len(h.args[0]) == 1 and h.args[0][0].kind == "h"})
+        free = {k: v for k, v in env.items() if not _len_key(k) and not _coll_key(k)}
+        for b in here:
+            ser.append(b)
+            only = 1 in counts      # it may be the endpoint's only body
+            if f"{b}.body_type.value" not in written:
+                no_key.append((b, free))
+            has_ct = f"{b}.content_type" in written
+            n_ct += has_ct
+            if not has_ct and not (only and _multipart(env, b) is True):
+                no_ct.append((b, {"len(endpoint.bodies)": sorted(counts), **free}))
+            if has_ct and only and _multipart(env, b) is not False:
+                explicit.append((b, {"len(endpoint.bodies)": sorted(counts), **free}))
     # whenever a body is serialised, the result is stored under its own body_type
-    rep.check(bool(ser) and all(any(_implication_counterexample(f, k) is None for k in _about(f, b, "body_type.value")) for f, b in ser),
-              "R03.3", "endpoint_module.py.jinja::kwargs-key-is-body-type", "_kwargs is not keyed by body.body_type.value wherever a body is serialised",
-              where=f"{PKG}/templates/{et.name}", lhs=[b for _, b in ser])
+    rep.check(bool(ser) and not no_key, "R03.3", "endpoint_module.py.jinja::kwargs-key-is-body-type",
+              "_kwargs is not keyed by body.body_type.value wherever a body is serialised", where=f"{PKG}/templates/{et.name}", lhs=no_key[:2] or sorted(set(ser)))
     # whenever a body is serialised, its own content_type is written - except for the only body of an endpoint when it is multipart
-    no_ct = []
-    for f, b in ser:
-        cts = _about(f, b, "content_type")
-        for ln, env in _models(f, *cts):
-            if _holds(f, env, ln) and not any(_holds(c, env, ln) for c in cts) and not (_only_body(ln) and _multipart(env, b) is True):
-                no_ct.append((b, {**ln, **{k: v for k, v in env.items() if not _len_key(k) and not _coll_key(k)}}))
-                break
     rep.check(bool(ser) and not no_ct, "R03.3", "endpoint_module.py.jinja::content-type-from-body", f"Content-Type is not taken from body.content_type "
               f"(a body is serialised without it: {no_ct[:1]})", where=f"{PKG}/templates/{et.name}", lhs=no_ct[:2])
     # the Content-Type of the only body of an endpoint is never written when it is multipart: httpx must set the boundary
-    explicit = []
-    n_ct = 0
-    for f, b in ser:
-        for c in _about(f, b, "content_type"):
-            n_ct += 1
-            for ln, env in _models(c):
-                if _holds(c, env, ln) and _only_body(ln) and _multipart(env, b) is not False:
-                    explicit.append((b, c.line))
-                    break
     rep.check(n_ct > 0 and not explicit, "R03.3", "endpoint_module.py.jinja::multipart-boundary",
-              "a single multipart body gets an explicit Content-Type (httpx must set the boundary)", where=f"{PKG}/templates/{et.name}", lhs=explicit)
+              "a single multipart body gets an explicit Content-Type (httpx must set the boundary)", where=f"{PKG}/templates/{et.name}", lhs=explicit[:2])
     # Body.content_type is the key under which the document lists the media type, untouched: the argument is (an alias of, a parameter
     # that is passed) the key variable of a loop over the items / keys of <request body>.content
     def is_content(g: Any, e: ast.AST) -> bool:
@@ -1544,7 +1725,12 @@ def run(rep: Report, ctx: Any) -> str:
     n_h = n_th = 0
     for c in ix.property_classes():
         al = ix.find_classvar(c, "_allowed_locations")
-        if al is None or "HEADER" not in norm(al[1]):
+        if al is None:
+            continue
+        # the locations the kind is allowed in, as a set: written as a display or computed from shared constants
+        locs = _location_set(ix, al[0].module, al[1])
+        rep.require(locs is not None, f"_allowed_locations of {c.name} as a constant set of parameter locations (`{norm(al[1])[:80]}`)")
+        if "HEADER" not in locs:
             continue
         ts = ix.find_classvar(c, "_type_string")
         tstr = ix.const_str(ts[0].module, ts[1]) if ts else ""
@@ -1626,6 +1812,16 @@ def run(rep: Report, ctx: Any) -> str:
         rep.check(strip_parens(ta2) == strip_parens(tb), "R03.6", f"endpoint_module.py.jinja::{a}=={b}",
                   "the blocking and asyncio variants differ beyond async/await", where=f"{PKG}/templates/{et.name}",
                   lhs=len(ta2), rhs=len(tb))
+
+    # ---- R03.12 -----------------------------------------------------------------------------------------------------------------
+    # every complete statement of the module's skeleton (both arms of every template test, macros inlined), holes as identifiers
+    ptext = re.sub(OPQ + r"(\d+)" + OPQ, r"O_\1", re.sub(HOLE + r"(\d+)" + HOLE, r"H_\1", text))
+    changes, sends = _client_state_changes(list(_py_stmts(ptext)))
+    rep.floor("sends_through_the_httpx_client", sends, 1)
+    rep.check(not changes, "R03.12", "endpoint_module.py.jinja::client-state-untouched",
+              f"an endpoint function changes the state of the client it is given (`{norm(changes[0])[:90] if changes else ''}`): what one call "
+              "puts there is still there on the next call - an argument left UNSET then, or another operation, sends it too",
+              where=f"{PKG}/templates/{et.name}", lhs=[norm(c)[:90] for c in changes[:3]], rhs="the client and its httpx client are only read / used to send")
 
     # ---- R03.7 ------------------------------------------------------------------------------------------------------------------
     efd = ix.func("Endpoint.from_data")
